@@ -6,7 +6,7 @@ LEVEL = "proof"
 TEXT = ("`validateParamsExist o = [] <-> every (referrer, name) in paramRefs o is declared` (and the same for services), the count of diagnostics = count of dangling "
         "occurrences, todo services are declared and refer to nothing: Lean theorems for every compiled configuration, with paramRefs enumerating parameters, "
         "service arguments/calls/fields and decorator arguments. Tied by running model and implementation on generated configurations in which references are "
-        "removed/renamed in every position, singly and combined; the implementation's verdict is also judged by an independent reference walker in Python. pattern_deps_all_refs: the recorded parameter dependencies of a compiled pattern are exactly the references among its tokens, in any position. The run-time consequence is exercised: accepted containers are built and asked for every service, parameter and tag — no answer may say "does not exist".")
+        "removed/renamed in every position, singly and combined; the implementation's verdict is also judged by an independent reference walker in Python. pattern_deps_all_refs: the recorded parameter dependencies of a compiled pattern are exactly the references among its tokens, in any position. The run-time consequence is exercised: accepted containers are built and asked for every service, parameter and tag — no answer may say 'does not exist'.")
 TECHNIQUE = "Lean 4 theorems (list/filter reasoning over the compiled output) + model-vs-implementation correspondence on reference mutations in every position"
 LEAN_PROPS = ["C06"]
 TRUSTED = ["resolver DependsOn* lists vs what the emitted code dereferences: compared structurally in `compile` correspondence (code strings and dependency lists)"]
